@@ -931,6 +931,30 @@ theorem toJsonMembers_badKey (d : Opts) (hk : d.skipKeys = false) (s : Nat → E
           exact ⟨e, by simp [he]⟩
 end
 
+/-! ### reading a file of serialised records line by line -/
+
+theorem readLinesAux_body (rest : Str) : ∀ (body cur : Str), (∀ c ∈ body, c ≠ '\n') →
+    readLinesAux cur (body ++ '\n' :: rest) = (cur.reverse ++ body ++ ['\n']) :: readLinesAux [] rest
+  | [], cur, _ => by simp [readLinesAux]
+  | c :: t, cur, h => by
+    have hc : c ≠ '\n' := h c (by simp)
+    have ht : ∀ x ∈ t, x ≠ '\n' := fun x hx => h x (List.mem_cons_of_mem _ hx)
+    simp only [List.cons_append, readLinesAux, hc, if_false]
+    rw [readLinesAux_body rest t (c :: cur) ht]
+    simp
+
+/-- a text made of LF-terminated, LF-free bodies is read back as exactly those lines -/
+theorem readLines_flatten : ∀ ls : List Str, (∀ l ∈ ls, ∃ body, l = body ++ ['\n'] ∧ ∀ c ∈ body, c ≠ '\n') →
+    readLines ls.flatten = ls
+  | [], _ => by simp [readLines, readLinesAux]
+  | l :: t, h => by
+    obtain ⟨body, rfl, hb⟩ := h l (by simp)
+    have ih := readLines_flatten t (fun x hx => h x (List.mem_cons_of_mem _ hx))
+    simp only [readLines] at ih ⊢
+    simp only [List.flatten_cons, List.append_assoc, List.singleton_append]
+    rw [readLinesAux_body _ body [] hb, ih]
+    simp
+
 /-- with `skipkeys` off no member is dropped: the JSON object has one member per dictionary item, its
 keys are the coerced keys in insertion order -/
 theorem toJsonMembers_keys (d : Opts) (hk : d.skipKeys = false) (s : Nat → Except Err Str) :
